@@ -308,6 +308,16 @@ def generic_rules(body):
         edits.append((h.start(), h.end(), '{ let enum_s__ = vstd::slice::slice_subrange(%s.as_slice(), 0, %s); let mut %s: usize = 0; '
                       'while %s < enum_s__.len() { let %s = &enum_s__[%s];' % (e_, n_, i_, i_, x_, i_), 'R16'))
         edits.append((cb, cb + 1, ' %s += 1; } }' % i_, 'R16'))
+    # R16b  for (I, X) in E.iter().enumerate() { B }  (E a slice / Vec expression)
+    #        =>  { let enum_s__ = E; let mut I: usize = 0; while I < enum_s__.len() { let X = &enum_s__[I]; B  I += 1; } }
+    for h in re.finditer(r'\bfor\s*\(\s*(\w+)\s*,\s*(\w+)\s*\)\s*in\s+([A-Za-z_][\w.]*(?:\(\))?)\s*\.\s*iter\(\)\s*\.\s*enumerate\(\)\s*\{', m):
+        ob = h.end() - 1
+        cb = match_brace(m, ob)
+        if re.search(r'\bcontinue\b', m[ob:cb]):
+            raise LostAnchor('rule R16 refuses a loop body with continue')
+        i_, x_, e_ = h.group(1), h.group(2), body[h.start(3):h.end(3)]
+        edits.append((h.start(), h.end(), '{ let enum_s__ = %s; let mut %s: usize = 0; while %s < enum_s__.len() { let %s = &enum_s__[%s];' % (e_, i_, i_, x_, i_), 'R16'))
+        edits.append((cb, cb + 1, ' %s += 1; } }' % i_, 'R16'))
     # R17  E.into_iter().rev().map(|X| B).collect()
     #        =>  { let mut rev_src__ = E; let mut rev_out__ = Vec::new();
     #              loop { match rev_src__.pop() { Some(X) => { rev_out__.push(B); } None => break, } } rev_out__ }
@@ -470,6 +480,19 @@ def build_fn(key, mode, log):
         out.append(Line(c.wrap + ' {', ('T', c.rel, 0)))
     for no, ln in c.head:
         out.append(Line(ln, ('T', c.rel, no)))
+    if mode == 'decl-sig':
+        # signature only: neither the preconditions nor the postconditions of the contract are used in this unit (the call
+        # site does NOT prove the callee's precondition here; reported as an unchecked assumption in the evidence)
+        keep = []
+        for l in out:
+            s_ = l.text.strip()
+            if s_.split('(')[0].strip() in CLAUSE_KW or (s_.split() and s_.split()[0] in CLAUSE_KW):
+                break
+            keep.append(l)
+        out = keep
+        prov['rewrites'].append(dict(rule='DECL-SIG', where='%s:%s' % (c.src_file, c.fn_spec), before='contract clauses of %s' % key,
+                                     after='signature only: the precondition is NOT proved at the call sites of this unit'))
+        mode = 'decl'
     if mode == 'decl':
         # contract only; the body is verified in the unit that owns this function
         idx = next(i for i, l in enumerate(out) if re.search(r'\bfn\b', l.text))
@@ -566,6 +589,17 @@ def build_fn(key, mode, log):
             new_txt = '{ let mut forit__ = %s; let ghost forit0__ = forit__; loop { let %s = match forit__.next() { Some(v__) => v__, None => break };' % (e_txt, pat)
             splice(h.start(), h.end(), new_txt + '\n' * old_txt.count('\n'), src_ln)
             rw.append(dict(rule='R19', where='%s:%s' % (c.src_file, src_ln), before=re.sub(r'\s+', ' ', old_txt), after=new_txt))
+
+    # 0c. rule R22 (opt-in: `//@while-let-desugar`): while let Some(X) = E { B }  =>  loop { let X = match E { Some(v__) => v__, None => break }; B }
+    #     (definition of `while let`; lets a hint name the state BEFORE E is evaluated)
+    if any(d['kind'] == 'while-let-desugar' for d in c.directives):
+        mb = mask(body)
+        for h in reversed(list(re.finditer(r'\bwhile\s+let\s+Some\s*\(\s*(\w+)\s*\)\s*=\s*([^{;]+?)\s*\{', mb))):
+            old_txt = body[h.start():h.end()]
+            new_txt = 'loop { let %s = match %s { Some(v__) => v__, None => break };' % (h.group(1), body[h.start(2):h.end(2)])
+            src_ln = orig[h.start()]
+            splice(h.start(), h.end(), new_txt + '\n' * old_txt.count('\n'), src_ln)
+            rw.append(dict(rule='R22', where='%s:%s' % (c.src_file, src_ln), before=re.sub(r'\s+', ' ', old_txt), after=new_txt))
 
     # 1. explicit replaces
     for d in c.directives:
@@ -828,7 +862,7 @@ def build_fn(key, mode, log):
     for d in c.directives:
         k = d['kind']
         tag = -d['lineno']
-        if k in ('replace', 'for-desugar'):
+        if k in ('replace', 'for-desugar', 'while-let-desugar'):
             continue
         optional = k.endswith('?')
         if optional:
@@ -983,12 +1017,12 @@ class Unit:
                 self.rewrites += self.prov[-1]['rewrites']
             elif s.startswith('//@fn') or s.startswith('//@decl'):
                 d, key = s.split()
-                mode = 'body' if d == '//@fn' else 'decl'
+                mode = 'body' if d == '//@fn' else ('decl-sig' if d == '//@decl-sig' else 'decl')
                 ls, prov, c = build_fn(key, mode, self.rewrites)
                 start = len(self.lines) + 1
                 self.lines += ls
                 self.prov.append(prov)
-                self.fn_spans.append(dict(key=key, mode=mode, start=start, end=len(self.lines), contract=c))
+                self.fn_spans.append(dict(key=key, mode=('decl' if mode == 'decl-sig' else mode), start=start, end=len(self.lines), contract=c))
             elif s.startswith('//@unit') or s.startswith('//@note'):
                 continue
             elif s.startswith('//@'):
